@@ -36,6 +36,7 @@ def gen_types(names, max_total):
 def run(tier, seed):
     import core_impl as ci
     rep = Report("C10", tier, seed)
+    ci.CHECK_PURITY = True      # every operation must leave its arguments as they were
     proof_ok = common.proof_stage(rep, "C10")
     rng = random.Random(seed)
     maxw = 4 if tier == "quick" else 5
